@@ -707,7 +707,7 @@ def run(ctx):
         "who-writes-where. Not decided: wording of diagnostics.")
     ctx.assume("json.load on a text stream raises JSONDecodeError or UnicodeDecodeError (stdlib model); open() failures other than ENOENT are re-raised on purpose")
     from .clisem import cli_eval
-    sem = cli_eval(ctx.prog)
+    sem = ctx.extra["_clisem"] = cli_eval(ctx.prog)
     if sem is not None and "raises" not in sem:
         # decided by running cli.run inside the definitional interpreter on a table of scenarios (sa/rules/clisem.py); the CFG rules
         # below remain the fallback for code outside the evaluated fragment
